@@ -8,6 +8,8 @@ package operators
 import (
 	"bufio"
 	"bytes"
+	"crypto/sha256"
+	"encoding/hex"
 	"strings"
 
 	ahocorasick "github.com/petar-dambovaliev/aho-corasick"
@@ -64,7 +66,11 @@ func newPMFromFile(options plugintypes.OperatorOptions) (plugintypes.Operator, e
 		DFA:                  false,
 	})
 
-	m, _ := memoizeDo(options.Memoizer, strings.Join(options.Path, ",")+filepath, func() (any, error) { return builder.Build(lines), nil })
+	// The cache key is derived from the phrases themselves: the same file name can hold different
+	// content for another WAF (a different root FS or configuration directory), and a matcher
+	// built for one of them must never be handed to the other.
+	sum := sha256.Sum256([]byte(strings.Join(lines, "\n")))
+	m, _ := memoizeDo(options.Memoizer, "pmFromFile:"+hex.EncodeToString(sum[:]), func() (any, error) { return builder.Build(lines), nil })
 
 	return &pm{matcher: m.(ahocorasick.AhoCorasick), minLen: minPatternLen(lines)}, nil
 }
